@@ -57,6 +57,26 @@ def strategy_(draw: Any) -> Case:
     for f in unit.files:
         if draw(st.booleans()):
             f.options.append(("c.name_prefix", draw(st.sampled_from(PREFIXES))))
+    # like-named top-level definitions in two files are legal when their C prefixes differ (Python and Go
+    # qualify by module / package): `lib.Vec` next to `Vec`
+    from .. import scoping
+
+    pref = {id(f): next((v for k, v in f.options if k == "c.name_prefix"), "") for f in unit.files}
+    if len(unit.files) >= 2 and draw(st.integers(0, 2)) == 0:
+        fa, fb = unit.files[0], unit.files[-1]
+        if pref[id(fa)] and pref[id(fb)] and pref[id(fa)] != pref[id(fb)]:
+            for kind in (Message, Enum, Alias):
+                da = [x for x in fa.items if isinstance(x, kind)]
+                db = [x for x in fb.items if isinstance(x, kind)]
+                if da and db:
+                    old_name = db[0].name
+                    db[0].name = da[0].name
+                    set_parents(unit)
+                    if not (scoping.retext(unit) and scoping.names_unique(unit) and all(x.name != da[0].name for x in fb.items if x is not db[0]) and all(imp.name != da[0].name for imp in fb.imports())):
+                        db[0].name = old_name
+                        set_parents(unit)
+                        scoping.retext(unit)
+                    break
     rand = {}
     for i, m in enumerate(unit_messages(unit)):
         rand[i] = [draw(S.values(m))]
@@ -328,6 +348,13 @@ def run_case(c: Case, stats: Stats) -> None:
 
 
 def _prefix_relation(c: Case, unit: Unit, cu: gen.Compiled, cdir: str, godir: str, pydir: str, mods: Any, stats: Stats) -> None:
+    tops = [x.name for f in unit.files for x in f.items if isinstance(x, (Message, Enum, Alias))]
+    if len(tops) != len(set(tops)):
+        # like-named definitions in two files are only distinct in C BECAUSE of their prefixes: the unprefixed
+        # variant is not a legal C compilation unit, so the relation has no right-hand side here
+        stats.exclude("prefix relation: names are distinct in C only through the prefixes")
+        stats.count("same_name_two_files")
+        return
     plain = strip_prefix(unit)
     msgs = unit_messages(unit)
     pmsgs = unit_messages(plain)
